@@ -2,7 +2,7 @@
 normal forms in F_q[inputs], with the definitional arithmetic - for every input at once, and for every aliasing pattern
 the signature admits (so the same runs also decide C18 at value level for these routines)."""
 from .facts import walk, strip, loc_str, strip_tmpl
-from . import gvn, poly
+from . import gvn, poly, bls
 from .poly import Poly, F2, F6, F12, XI, ZERO, ONE, flat, sym_f2, sym_f6, sym_f12
 from . import buildmodel as bm
 
@@ -321,3 +321,222 @@ def rule_curve(ctx, cfg, prog, rule='R-POLY'):
                        cfg=cfg, sample=dict(config=cfg, formula='Projective<%s>::add/%s' % (base, kind), check='chord rule, cross-multiplied'))
     gvn.EXTRA_LEAVES.clear()
     return n
+
+
+# ------------------------------------------------------------------ exponent domain (C01, C04, C07, C06)
+
+# ------------------------------------------------------------------ cyclotomic squaring (C04)
+def span_contains(targets, gens):
+    """for each target polynomial: does it lie in the F_q-linear span of the generator polynomials (Gaussian elimination
+    over F_q on coefficient vectors)"""
+    Qm = poly.Q
+    monos = sorted(set(m for p in list(targets) + list(gens) for m in p.t), key=str)
+    idx = {m: i for i, m in enumerate(monos)}
+
+    def vec(p):
+        v = [0] * len(monos)
+        for m, c in p.t.items():
+            v[idx[m]] = c
+        return v
+    rows = [vec(g) for g in gens if not g.is_zero()]
+    piv = []
+    r = 0
+    for c in range(len(monos)):
+        if r == len(rows):
+            break
+        prow = None
+        for i in range(r, len(rows)):
+            if rows[i][c] % Qm:
+                prow = i
+                break
+        if prow is None:
+            continue
+        rows[r], rows[prow] = rows[prow], rows[r]
+        inv = pow(rows[r][c], -1, Qm)
+        rows[r] = [(x * inv) % Qm for x in rows[r]]
+        for i in range(len(rows)):
+            if i != r and rows[i][c] % Qm:
+                fct = rows[i][c]
+                rows[i] = [(x - fct * y) % Qm for x, y in zip(rows[i], rows[r])]
+        piv.append(c)
+        r += 1
+    res = []
+    for t in targets:
+        v = vec(t)
+        for k, c in enumerate(piv):
+            if v[c] % Qm:
+                fct = v[c]
+                v = [(x - fct * y) % Qm for x, y in zip(v, rows[k])]
+        res.append(all(x % Qm == 0 for x in v))
+    return res
+
+
+def rule_cyclotomic(ctx, cfg, prog, rule='R-POLY/cyclotomic'):
+    """Fq12::square_cyclotomic(a) == a^2 for every a in the cyclotomic subgroup G_{phi6(q^2)}: the difference of the routine's
+    polynomial normal form and a*a lies in the F_q-linear span of the components of the two relations that hold on that
+    subgroup, a*conj(a) - 1 (a^(q^6+1) = 1) and frob^4(a)*a - frob^2(a) (a^(q^4-q^2+1) = 1)."""
+    f = the_fn(prog, NS + 'Fq12::square_cyclotomic')
+    a = sym_f12('a')
+    want = dict(flat(a * a))
+    one12 = F12(F6(F2(ONE, ZERO), F2(ZERO, ZERO), F2(ZERO, ZERO)), F6(F2(ZERO, ZERO), F2(ZERO, ZERO), F2(ZERO, ZERO)))
+    rel = list(dict(flat(a * a.conj() - one12)).values()) + \
+        list(dict(flat(poly.frobenius_f12(a, 4) * a - poly.frobenius_f12(a, 2))).values())
+    n = 0
+    for al in (None, 0):
+        try:
+            M, out = run_member(prog, f, 'Fq12', [('Fq12', 'a')], alias=al)
+            got = dict(M.object_leaves(out, type_of(prog, 'Fq12')))
+        except gvn.Unsupported as e:
+            raise bm.AnalysisBroken('R-POLY cannot model Fq12::square_cyclotomic: %s' % e)
+        paths = sorted(want)
+        diffs = [(got.get(p_) if got.get(p_) is not None else Poly()) - want[p_] for p_ in paths]
+        exact = sum(1 for d in diffs if d.is_zero())
+        inspan = span_contains(diffs, rel)
+        bad = [paths[i] for i, okc in enumerate(inspan) if not okc]
+        n += 1
+        ctx.ob(rule, not bad and len(got) == len(want), 'cyclo|Fq12::square_cyclotomic|%s' % ('out==a' if al == 0 else 'distinct'), loc_str(f),
+               'Fq12::square_cyclotomic(a) differs from a*a on the cyclotomic subgroup: component(s) %s of the difference are not in the '
+               'span of the subgroup relations a*conj(a)=1, a^(q^4)*a=a^(q^2)' % ['.'.join(p_) for p_ in bad[:3]], cfg=cfg,
+               sample=dict(config=cfg, formula='square_cyclotomic == square on G_phi6', components=len(paths), identically_equal=exact,
+                           equal_modulo_subgroup_relations=len(paths) - len(bad), relation_generators=len(rel), aliased=al == 0))
+    return n
+
+
+def _exp_run(prog, f, leaf_recs, this_is_out=True, args=None, ints=None, names=None):
+    """run f in the exponent domain; args: list of ('g', symbol) | ('obj', name) | None per parameter; returns (machine, out oid)"""
+    from . import expdom
+    gvn.EXTRA_LEAVES.clear()
+    gvn.EXTRA_LEAVES.update(leaf_recs)
+    M = expdom.ExpMachine(prog)
+    M.obj_names = {}
+    lvs = []
+    for a in (args or []):
+        if a is None:
+            lvs.append(None)
+        elif a[0] == 'g':
+            lvs.append((M.new_element(a[1]), ()))
+        elif a[0] == 'obj':
+            o = M.new_obj()
+            M.obj_names[o] = a[1]
+            lvs.append((o, ()))
+        elif a[0] == 'same':
+            lvs.append(lvs[a[1]])
+    return M, lvs
+
+
+def rule_exponents_gt(ctx, cfg, prog, which=('final', 'cyclo', 'gtexp', 'generic'), rule='R-POLY/exp'):
+    from . import expdom
+    Qn, R_, X_ = bls.Q, bls.R_ORDER, bls.X
+    N12 = Qn ** 12 - 1
+    F12 = NS + 'Fq12'
+    n = 0
+    try:
+        if 'final' in which:
+            f = the_fn(prog, NS + 'final_exponentiation')
+            want = (3 * (N12 // R_)) % N12
+            for alias in (False, True):
+                M, lvs = _exp_run(prog, f, {F12}, args=[('g', 'g'), ('g', 'g')])
+                out, a = lvs
+                if alias:
+                    out = a
+                else:
+                    M.store[out] = None
+                    M.store.pop(out, None)
+                why = 'the exponent of the easy part (q^6-1)(q^2+1) times the hard part does not equal the library\'s final exponent'
+                try:
+                    M.run_fn(f, None, [out, a], {})
+                    E = M.read_leaf(out[0], out[1])
+                    got = E.t.get('g', 0) % N12 if not E.c and set(E.t) <= {'g'} else None
+                except expdom.NotEquivalent as ex:
+                    got, why = None, str(ex)
+                n += 1
+                ctx.ob(rule, got == want, 'exp|final_exponentiation|%s' % ('result==a' if alias else 'distinct'), loc_str(f),
+                       'final_exponentiation(result, a) computes a^E with E != 3*(q^12-1)/r (mod q^12-1): %s' % why, cfg=cfg,
+                       sample=dict(config=cfg, routine='final_exponentiation', exponent_bits=(got or 0).bit_length(),
+                                   expected='3*(q^12-1)/r mod (q^12-1)', aliased=alias,
+                                   cyclotomic_squarings_with_operand_proved_in_subgroup=M.cyclotomic_squarings))
+        if 'cyclo' in which:
+            f = the_fn(prog, NS + 'Fq12::map_to_cyclotomic')
+            M, lvs = _exp_run(prog, f, {F12}, args=[('g', 'g')])
+            out = (M.new_obj(), ())
+            M.run_fn(f, out, lvs, {})
+            E = M.read_leaf(out[0], out[1])
+            n += 1
+            ctx.ob(rule, (not E.c) and set(E.t) <= {'g'} and E.t.get('g', 0) % N12 == ((Qn ** 6 - 1) * (Qn ** 2 + 1)) % N12,
+                   'exp|map_to_cyclotomic', loc_str(f), 'Fq12::map_to_cyclotomic does not raise to (q^6-1)(q^2+1)', cfg=cfg,
+                   sample=dict(config=cfg, routine='map_to_cyclotomic', expected='(q^6-1)(q^2+1)'))
+        if 'gtexp' in which:
+            f = the_fn(prog, NS + 'Fq12::exponentiate_gt', pred=lambda g: 'PowersOfX' in g['params'][1]['t']['s'])
+            for alias in (False, True):
+                M, lvs = _exp_run(prog, f, {F12}, args=[('g', 'g'), ('obj', 'scalar')])
+                out = lvs[0] if alias else (M.new_obj(), ())
+                M.gen_cyclotomic = True          # the property quantifies over a in GT
+                bad = []
+                try:
+                    M.run_fn(f, out, lvs, {})
+                    E = M.read_leaf(out[0], out[1])
+                except expdom.NotEquivalent as ex:
+                    bad.append(str(ex))
+                    E = expdom.Lin(0)
+                seen = set()
+                for k, v in E.t.items():
+                    # k = 'bit:scalar.c.[j]#i*g'
+                    if not (k.startswith('bit:scalar.c.[') and k.endswith('*g')):
+                        bad.append('unexpected term %s' % k)
+                        continue
+                    j = int(k[len('bit:scalar.c.['):].split(']')[0])
+                    i = int(k.split('#')[1].split('*')[0])
+                    seen.add((j, i))
+                    if v % R_ != (pow(2, i, R_) * pow(abs(X_), j, R_)) % R_:
+                        bad.append('bit %d of digit %d has weight != 2^%d*|x|^%d (mod r)' % (i, j, i, j))
+                if E.c % R_:
+                    bad.append('constant exponent')
+                missing = [(j, i) for j in range(4) for i in range(64) if (j, i) not in seen]
+                if missing:
+                    bad.append('bits never used: %s...' % missing[:3])
+                n += 1
+                ctx.ob(rule, not bad, 'exp|exponentiate_gt|%s' % ('out==a' if alias else 'distinct'), loc_str(f),
+                       'Fq12::exponentiate_gt(a, c) is not a^(c0 + c1|x| + c2|x|^2 + c3|x|^3) for a of order r: %s' % '; '.join(bad[:3]), cfg=cfg,
+                       sample=dict(config=cfg, routine='exponentiate_gt', bit_weights_checked=len(seen), aliased=alias,
+                                   uses='q = x (mod r), q^6 = -1 (mod r)', flag_guards_proved_equivalent=M.flag_guards, assumptions=sorted(M.assumptions)))
+        if 'generic' in which:
+            # generic square-and-multiply routines: weight of bit i must be 2^i
+            cands = [g for g in prog.functions.values() if 'body' in g and strip_tmpl(g['qn']) in
+                     ('embedded_pairing::core::exponentiate_restrict', NS + 'Fq12::exponentiate_restrict_cyclotomic_nodiv')]
+            ctx.require(len(cands) >= 3, 'generic exponentiation routines not found')
+            for f in sorted(cands, key=lambda g: g['qn']):
+                method = bool(f.get('method'))
+                elt = (f['params'][0]['t'].get('pointee') or {}).get('rec') if not method else f.get('parent')
+                bits = int(strip_tmpl_bits(f['params'][-1]['t']['s']))
+                bad = []
+                try:
+                    if method:
+                        M, lvs = _exp_run(prog, f, {elt}, args=[('g', 'g'), ('obj', 'k')])
+                        M.gen_cyclotomic = 'cyclotomic' in f['qn']      # documented precondition of the *_cyclotomic_* routine
+                        out = (M.new_obj(), ())
+                        M.run_fn(f, out, lvs, {})
+                    else:
+                        M, lvs = _exp_run(prog, f, {elt}, args=[('obj', 'res'), ('g', 'g'), ('obj', 'k')])
+                        out = lvs[0]
+                        M.run_fn(f, None, lvs, {})
+                    E = M.read_leaf(out[0], out[1])
+                except expdom.NotEquivalent as ex:
+                    bad.append(str(ex))
+                    E = expdom.Lin(0)
+                bad += [k for k, v in E.t.items() if not (k.startswith('bit:k#') and k.endswith('*g') and v == 1 << int(k.split('#')[1].split('*')[0]))]
+                okc = len(E.t) == bits and not bad and not E.c
+                n += 1
+                ctx.ob(rule, okc, 'exp|%s' % f['qn'][-70:], loc_str(f),
+                       '%s is not a -> a^k with bit i of k weighted 2^i for all %d bits (%s)' % (f['qn'], bits, bad[:2]), cfg=cfg,
+                       sample=dict(config=cfg, routine=f['qn'][-70:], bits=bits, flag_guards_proved_equivalent=M.flag_guards))
+    except gvn.Unsupported as e:
+        raise bm.AnalysisBroken('R-POLY/exp cannot model the routine: %s' % e)
+    finally:
+        gvn.EXTRA_LEAVES.clear()
+    return n
+
+
+def strip_tmpl_bits(s):
+    import re
+    m = re.search(r'BigInt<(\d+)>', s)
+    return m.group(1) if m else '0'
